@@ -63,6 +63,20 @@ func NewEngineFacade(dataDir string) (*EngineFacade, error) {
 		if !errors.Is(err, config.ErrManifestNotFound) {
 			return nil, fmt.Errorf("failed to load configuration: %w", err)
 		}
+		// No manifest: this must be a new database. A directory that already holds files
+		// was created with a configuration we no longer know (its WAL/SSTable directories
+		// may differ from the defaults); refuse rather than silently use defaults over it.
+		entries, err := os.ReadDir(dataDir)
+		if err != nil {
+			return nil, fmt.Errorf("failed to read data directory: %w", err)
+		}
+		for _, entry := range entries {
+			if entry.Name() == config.DefaultManifestFileName+".tmp" {
+				continue // left by an interrupted first SaveManifest
+			}
+			return nil, fmt.Errorf("failed to load configuration: %w in non-empty directory %s (found %s)",
+				config.ErrManifestNotFound, dataDir, entry.Name())
+		}
 		// Create a new configuration
 		cfg = config.NewDefaultConfig(dataDir)
 		if err := cfg.SaveManifest(dataDir); err != nil {
